@@ -12,6 +12,7 @@ import (
 func init() {
 	register("chain-replay", chainReplay)
 	register("kmp-check", kmpCheck)
+	register("kmp-run", kmpRun)
 }
 
 func runKmp(ring [][2]float64) (out [][2]float64, outcome string) {
@@ -138,6 +139,55 @@ func kmpCheck(args []string) int {
 			}
 		}
 		out.put(map[string]any{"invented": invented, "witness": witness})
+	})
+	return 0
+}
+
+// kmpRun: label sequences -> results of the real kmpDeduplicate / kmpSearchAll (Kmp.tla vectors and experiments).
+// input lines: {"ring":[labels]} or {"corpus":[labels],"find":[labels]}; label n is the point (n+0.5, 0.5)
+func kmpRun(args []string) int {
+	out := newJSONL("-")
+	defer out.close()
+	pt := func(ls []int) [][2]float64 {
+		r := make([][2]float64, len(ls))
+		for i, l := range ls {
+			r[i] = [2]float64{float64(l) + 0.5, 0.5}
+		}
+		return r
+	}
+	lab := func(ps [][2]float64) []int {
+		r := make([]int, len(ps))
+		for i, p := range ps {
+			r[i] = int(p[0] - 0.5)
+		}
+		return r
+	}
+	readJSONLines("-", func(line []byte) {
+		var v struct {
+			Ring   []int `json:"ring"`
+			Corpus []int `json:"corpus"`
+			Find   []int `json:"find"`
+		}
+		if err := json.Unmarshal(line, &v); err != nil {
+			fatal("bad input: %v", err)
+		}
+		if v.Find != nil {
+			res, oc := func() (r []int, oc string) {
+				defer func() {
+					if e := recover(); e != nil {
+						r, oc = []int{}, "panic: "+panicString(e)
+					}
+				}()
+				return snap.VerifKmpSearchAll(pt(v.Corpus), pt(v.Find)), "ok"
+			}()
+			if res == nil {
+				res = []int{}
+			}
+			out.put(map[string]any{"e": "Search", "corpus": v.Corpus, "find": v.Find, "got": res, "out": oc})
+			return
+		}
+		res, oc := runKmp(pt(v.Ring))
+		out.put(map[string]any{"e": "Dedupe", "ring": v.Ring, "got": lab(res), "out": oc})
 	})
 	return 0
 }
